@@ -137,6 +137,22 @@ def parse_cases(ctx, out):
                     out.nontrivial.add((ann, col, text))
                 if len(out.samples) < 3:
                     out.sample({"scheme": ann, "column": col, "text": text, "modes": MODES})
+        # several germline columns non-null in one line (adjacent ones included): each of them is hidden / refused
+        for _ in range(3):
+            fields = colcases.valid_fields(ann, rng)
+            chosen = list(cols) if rng.random() < 0.5 else rng.sample(list(cols), rng.randrange(2, len(cols) + 1))
+            for c2 in cols:
+                fields[names.index(c2)] = rng.choice(["A", "ACGT", "7", "T", "12"]) if c2 in chosen else ""
+            line = "\t".join(fields)
+            for col in chosen:
+                text = fields[names.index(col)]
+                for mode in MODES:
+                    out.evaluations += 1
+                    e = eval_parse(ann, col, text, mode, line)
+                    out.failures += e["failures"]
+                    if e["counted"]:
+                        out.distribution["several germline fields in one line"] += 1
+                        out.nontrivial.add((ann, col, text, "multi", tuple(sorted(chosen))))
         # protected-only VCF columns are absent from public layouts
         if ann.endswith("-public"):
             out.evaluations += 1
